@@ -13,6 +13,7 @@ import (
 )
 
 type Env struct {
+	paramsAtEntry bool // postconditions: a parameter name denotes its value on entry, even if the body reassigns it
 	x        *Exec
 	vc       *VC
 	cur, old *State
@@ -392,7 +393,7 @@ func (x *Exec) localByName(e *Env, name string) (val, bool) {
 	for _, p := range fn.Params {
 		if p.Name() == name {
 			// a parameter that is reassigned in the body denotes, at a program point, its latest dominating value
-			if e.atBlock != nil || e.atHeader != nil {
+			if (e.atBlock != nil || e.atHeader != nil) && !e.paramsAtEntry {
 				if v, ok := x.reassigned(e, name); ok {
 					return v, true
 				}
@@ -589,6 +590,14 @@ func (x *Exec) reassigned(e *Env, name string) (val, bool) {
 	if at == nil {
 		at = e.atHeader
 	}
+	// the parameter's own object: a different variable of the same name (shadowing, e.g. a loop variable) is not it
+	var pobj types.Object
+	var ptyp types.Type
+	for _, p := range x.fn.Params {
+		if p.Name() == name {
+			pobj, ptyp = p.Object(), p.Type()
+		}
+	}
 	var best ssa.Value
 	consider := func(v ssa.Value, in ssa.Instruction) {
 		if _, defined := x.vals[v]; !defined {
@@ -621,11 +630,11 @@ func (x *Exec) reassigned(e *Env, name string) (val, bool) {
 		for _, in := range b.Instrs {
 			switch t := in.(type) {
 			case *ssa.Phi:
-				if t.Comment == name {
+				if t.Comment == name && (ptyp == nil || types.Identical(t.Type(), ptyp)) {
 					consider(t, t)
 				}
 			case *ssa.DebugRef:
-				if id, ok := identName(t); ok && id == name && !t.IsAddr && isLocalObj(t) {
+				if id, ok := identName(t); ok && id == name && !t.IsAddr && isLocalObj(t) && (pobj == nil || t.Object() == pobj) {
 					if vi, ok := t.X.(ssa.Instruction); ok {
 						consider(t.X, vi)
 					}
